@@ -921,20 +921,23 @@ _dispatch_timer_unote_resume(dispatch_timer_source_refs_t dt)
 	}
 	if (unlikely(was_armed && !will_arm)) {
 		_dispatch_timer_unote_disarm(dt, dth);
-		if (!will_arm) {
-			// The source may have been resumed since it was found suspended
-			// above, by a thread whose wakeup still saw this timer armed and
-			// so did not ask for it to be rearmed. Look again now that the
-			// disarmed state is visible, or the timer is lost.
-			os_atomic_thread_fence(seq_cst);
-			will_arm = _dispatch_timer_unote_needs_rearm(dt, 0);
+		// The source may have been resumed since it was found suspended
+		// above, by a thread whose wakeup still saw this timer armed and
+		// so did not ask for it to be rearmed. Look again now that the
+		// disarmed state is visible, or the timer is lost. A timer that looks
+		// disarmed belongs to its source's queue (see above), so it is not
+		// rearmed from here: the source is woken up and asks for the rearm
+		// itself; the wakeup consumes the references the heap held on it.
+		os_atomic_thread_fence(seq_cst);
+		if (unlikely(_dispatch_timer_unote_needs_rearm(dt, 0))) {
+			return dx_wakeup(_dispatch_source_from_refs(dt), 0,
+					DISPATCH_WAKEUP_MAKE_DIRTY | DISPATCH_WAKEUP_CONSUME_2);
 		}
+		return _dispatch_release_unote_owner_tailcall(dt);
 	}
 	if (will_arm) {
 		if (!was_armed) _dispatch_retain_unote_owner(dt);
 		_dispatch_timer_unote_arm(dt, dth, tidx);
-	} else if (was_armed) {
-		_dispatch_release_unote_owner_tailcall(dt);
 	}
 }
 
